@@ -344,14 +344,14 @@ func genCase(r *lib.Rng, out *lib.Out, ci int) {
 	ca, cb := net.Pipe()
 	go io.Copy(io.Discard, cb)
 	client, _ := netmc.NewMinecraftConn(context.Background(), addrConn{Conn: ca, remote: netutil.NewAddr(remote, "tcp")},
-		proto.ServerBound, 0, time.Second, -1, nil)
+		proto.ServerBound, 0, time.Minute, -1, nil)
 	client.SetProtocol(version.Minecraft_1_20_2.Protocol)
 	client.SetState(state.Play)
 	client.SetType(ct)
 
 	// backend connection; the peer decodes the first packet with gate's reader
 	ba_, bb := net.Pipe()
-	backend, _ := netmc.NewMinecraftConn(context.Background(), ba_, proto.ClientBound, 0, time.Second, -1, nil)
+	backend, _ := netmc.NewMinecraftConn(context.Background(), ba_, proto.ClientBound, 0, time.Minute, -1, nil)
 	backend.AddSessionHandler(state.Login, nopHandler{})
 	type rd struct {
 		hs  *packet.Handshake
@@ -359,7 +359,7 @@ func genCase(r *lib.Rng, out *lib.Out, ci int) {
 	}
 	got := make(chan rd, 1)
 	go func() {
-		reader := netmc.NewReader(bb, proto.ServerBound, 5*time.Second, logr.Discard())
+		reader := netmc.NewReader(bb, proto.ServerBound, time.Minute, logr.Discard())
 		pc, err := reader.ReadPacket()
 		var hs *packet.Handshake
 		if err == nil {
@@ -378,7 +378,7 @@ func genCase(r *lib.Rng, out *lib.Out, ci int) {
 	var res rd
 	select {
 	case res = <-got:
-	case <-time.After(5 * time.Second):
+	case <-time.After(2 * time.Minute):
 		out.GoViolation(map[string]any{"index": ci, "what": "backend side never saw a packet nor EOF (hang)"})
 	}
 	bb.Close()
